@@ -21,6 +21,10 @@ func verif_C10_server_stub() {
 	m := &vsasl{failAt: -1}
 	be := &vbackend{authSession: true, mechs: []string{"XVERIF"}}
 	be.saslFn = func(_ *vsession, mech string) (sasl.Server, error) { return m, nil }
+	if nondetBool() {
+		// the backend's Logout reports a failure: the session is over all the same
+		be.logoutErr = verifErrBackend()
+	}
 	s, lg := verifServer(be)
 	s.AllowInsecureAuth = true
 	s.TLSConfig = &tls.Config{}
@@ -55,7 +59,7 @@ func verif_C10_server_stub() {
 		return
 	}
 	preps, pwf := verifParseReplies(vc.out)
-	verifAssert(pwf && len(preps) >= npre+1 && lg.lines == 0, "C10.plain-replies")
+	verifAssert(pwf && len(preps) >= npre+1 && (lg.lines == 0 || be.logoutErr != nil), "C10.plain-replies")
 	if !pwf || len(preps) < npre+1 {
 		return
 	}
